@@ -176,6 +176,24 @@ def check(case):
         ok, c2 = call(hm2.serialize)
         if not ok or c2 is None or c2.hash != cell.hash:
             return Fail('insertion-order-dependence', f'n={n}')
+    # the same map object keeps being used: overwrite one value (or add one key) after the first serialisation; the second
+    # serialisation must hold the NEW map, and serialising did not disturb the map itself
+    k0, v0 = pairs[0]
+    newv = (v0 + 1) % (1 << 32)
+    key, kw = _keyform(form, n, k0)
+    val, cmpv = _val(vkind, newv)
+    ok, r = call(hm.set, key, val, **kw)
+    if not ok:
+        return Fail('set-after-serialize-raises', f'{exc_sig(r)}: {r!r}')
+    model2 = dict(model)
+    model2[_intkey(form, n, k0)] = cmpv
+    ok, c3 = call(hm.serialize)
+    if not ok or c3 is None:
+        return Fail('serialize-after-update-raises', repr(c3))
+    ok, got = call(lambda: c3.begin_parse().load_hashmap(n, value_deserializer=des))
+    if not ok or sorted(got.items()) != sorted(model2.items()):
+        return Fail('stale-or-wrong-after-update', f'n={n}: serialised, overwrote key {k0}, serialised again: got '
+                    f'{sorted(got.items())[:5] if ok else got!r}, expected {sorted(model2.items())[:5]}')
     return None
 
 
